@@ -4,7 +4,7 @@ import re
 import subprocess
 import tempfile
 
-from . import core
+from . import core, build
 
 VG = ['valgrind', '--tool=memcheck', '--expensive-definedness-checks=yes', '--error-limit=no', '--leak-check=no', '-q',
       '--xml=yes']
@@ -57,7 +57,7 @@ def parse_xml(xml):
         # first frame inside the repository under test
         site = None
         for f in frames:
-            if f['dir'].startswith('/repo'):
+            if f['dir'].startswith(build.REPO):
                 path = os.path.join(f['dir'], f['file'])
                 site = {'kind': kind, 'fn': f['fn'], 'file': path, 'line': f['line'], 'text': src_line(path, f['line'])}
                 break
